@@ -370,14 +370,11 @@ class Mirror:
         if k in ("newpandas", "newmodule", "assign"):
             own = (m, o["s"])
             v = o["v"]
-            if k != "assign" and self.get_spec(m, v):
-                return "dup"
+            # dup (a second spec for a value that has one) is repaired in /repo: such creations are generated (rejected)
             if o.get("sh") == 9 or o.get("abspath"):
                 return "emptysheet_or_abspath"
             # rebind_same and stale_derived are repaired in /repo: their former triggers are generated
-        if k == "update":
-            if o["old"] != o["new"] and (m, o["new"]) in self.tab:
-                return "update_bound"
+        # update_bound (update to a value that is already referenced) is repaired in /repo: generated (rejected)
         if k == "removebase":
             s, b = o["s"], o["b"]
             old = self.bases_of(self.bases, m, s)
